@@ -11,6 +11,7 @@ import (
 	"verifharness/internal/c15"
 	"verifharness/internal/c16"
 	"verifharness/internal/c17"
+	"verifharness/internal/c18"
 	"verifharness/internal/c19"
 	"verifharness/internal/common"
 )
@@ -23,6 +24,7 @@ var subs = map[string]sub{
 	"c15": c15.Run,
 	"c16": c16.Run,
 	"c17": c17.Run,
+	"c18": c18.Run,
 	"c19": c19.Run,
 }
 
